@@ -3,6 +3,7 @@ package main
 import (
 	"fmt"
 	"go/token"
+	"os"
 	"sort"
 	"strings"
 )
@@ -176,6 +177,19 @@ func applyLockRules(r *Run, p *Prog, rs lockRuleSet) *LockAnalysis {
 				break
 			}
 		}
+		if chain == nil && os.Getenv("VERIF_DEBUG") != "" {
+			for _, nk := range need {
+				fmt.Printf("DEBUG need %v in %s: requires=%d callers=%d\n", nk, k.fn.Name, len(la.summary(k.fn).Requires[nk]), len(la.callers[k.fn]))
+				for _, cs := range la.callers[k.fn] {
+					fmt.Printf("DEBUG   caller %s lit=%v seen=%v parentReq=%d\n", cs.Caller.Name, cs.Caller.Lit != nil, la.litSeen[cs.Caller], func() int {
+						if cs.Caller.Parent != nil {
+							return len(la.summary(cs.Caller.Parent).Requires[nk])
+						}
+						return -1
+					}())
+				}
+			}
+		}
 		if chain == nil {
 			r.Ob(rs.Prefix+".GUARD", construct, p.Position(firstBad.Pos), true, "lock not taken here; every call chain from an entry point holds it at the call (caller-held summary)")
 			continue
@@ -243,3 +257,7 @@ func viaStr(v string) string {
 }
 
 var _ = token.NoPos
+
+// exportedEntry treats every exported function or method as an entry point: used when
+// the analysed scope is a single (internal) package whose callers are not analysed.
+func exportedEntry(fn *FuncNode) bool { return fn.Decl != nil && fn.Decl.Name.IsExported() }
